@@ -475,6 +475,9 @@ def build(r, n, cache=None):
     """construct through funsor's public API under the ACTIVE interpretation; `cache` shares leaf objects"""
     if cache is None:
         cache = {}
+    pre = cache.get(("prebuilt", id(r)))
+    if pre is not None:
+        return pre                 # a sub-term built elsewhere (another thread: see thread_stream)
     t = r[0]
     if t in ("leaf", "bleaf", "bleaf2"):
         key = (t, r[1], r[2])          # same leaf id AND same names -> same ndarray object (hash-consing)
@@ -1301,7 +1304,7 @@ def enum_stream(ctx):
     for c2 in CONS2 + CONS3:
         for c1 in CONS + CONS2 + CONS3:
             for v2, v1, w in itertools.product(POOL, POOL, POOL):
-                if quick and rng.random() > (0.04 if (c2 in CONS3 and c1 in CONS3) else 0.07):
+                if quick and rng.random() > (0.03 if (c2 in CONS3 and c1 in CONS3) else 0.05):
                     continue
                 for inner_c, outer_c, vi, vo in ((c2, c1, v2, v1), (c1, c2, v1, v2)):
                     inner = mk(g, inner_c, vi, w, base)
@@ -1337,6 +1340,207 @@ def enum_stream(ctx):
     check_cases(ctx, cases, "enum")
 
 
+# ---- the fresh-name supply across threads ------------------------------------------------------------------
+
+def in_thread(fn):
+    """run fn() on a FRESH worker thread and return its result (threads run one after the other)"""
+    import threading
+    box = {}
+
+    def target():
+        try:
+            box["result"] = fn()
+        except BaseException as e:
+            box["error"] = e
+    th = threading.Thread(target=target)
+    th.start()
+    th.join()
+    if "error" in box:
+        raise box["error"]
+    return box["result"]
+
+
+SUPPLY_PY = """import threading
+from funsor import interpreter
+out = []
+def go():
+    out.append(interpreter.gensym('i__BOUND'))
+for _ in range(3):
+    th = threading.Thread(target=go); th.start(); th.join()
+go()
+print(out)
+FAILS = len(set(out)) != len(out)
+"""
+
+THREAD_PY = """import threading
+def in_thread(fn):
+    box = {}
+    def target():
+        box['r'] = fn()
+    th = threading.Thread(target=target); th.start(); th.join()
+    return box['r']
+"""
+
+
+def nested_same_mangled(term):
+    """a binder node one of whose bound names is bound again strictly inside it (different thread-local counters
+    would produce this; a single monotone counter cannot, except through self-substitution, which this stream
+    does not generate)"""
+    for node in walk(term):
+        if not node.bound:
+            continue
+        inner = set()
+        for a in getattr(node, "_ast_values", ()):
+            for sub in (walk(a) if isinstance(a, Funsor) else
+                        [x for y in (a if isinstance(a, (tuple, frozenset)) else ()) if isinstance(y, Funsor)
+                         for x in walk(y)]):
+                inner |= set(sub.bound)
+        both = set(node.bound) & inner
+        if both:
+            return f"{type(node).__name__} binds {sorted(both)} which is bound again inside it"
+    return None
+
+
+def thread_stream(ctx):
+    """Capture avoidance rests on mangled names being unique among ALL live terms, whichever thread built them.
+    Inner binder terms are built on worker thread A, the enclosing binder over the SAME user name on worker thread B
+    (both fresh), the binders are opened on the main thread (reinterpret / substitution)."""
+    from funsor import interpreter
+    rng = ctx.rng
+    # (a) the supply itself: names issued on different threads (and on this one) are pairwise different
+    names = [in_thread(lambda: interpreter.gensym("i__BOUND")) for _ in range(3)] + [interpreter.gensym("i__BOUND")]
+    ctx.count("threads:supply-probe")
+    if len(set(names)) != len(names):
+        ctx.fail("input", "C05.gensym-supply-not-injective", witness={"issued": names},
+                 expected="pairwise different names", got=str(names), python=SUPPLY_PY)
+    # (b) Independent opened by substitution (inner reduction mentions the diag variable, so it stays lazy)
+    n = 3
+    for interp_name, interp in (("lazy", lazy), ("reflect", reflect)):
+        for bname, iname in itertools.product(POOL, POOL):
+            P = np.array([rng.choice([1., 2., 3.]) for _ in range(n)])
+            Qd = np.array([rng.choice([0., 1., 2.]) for _ in range(n)])
+            V = np.array([rng.choice([1., 2., 4.]) for _ in range(n)])
+            want = float(sum(P[b] * V[b] + sum(Qd[i] * V[b] for i in range(n)) for b in range(n)))
+
+            def run(threaded):
+                xi = Variable("xi", Real)
+                p_ = Tensor(P, OrderedDict([(bname, Bint[n])]))
+                q_ = Tensor(Qd, OrderedDict([(iname, Bint[n])]))
+
+                def make_inner():
+                    with interp:
+                        return (q_ * xi).reduce(ops.add, iname)
+
+                def make_outer(inner):
+                    def go():
+                        with interp:
+                            return Independent(p_ * xi + inner, "x", bname, "xi")
+                    return go
+                inner = in_thread(make_inner) if threaded else make_inner()
+                ind = in_thread(make_outer(inner)) if threaded else make_outer(inner)()
+                with interp:
+                    res = ind(x=Tensor(V))
+                return ind, reinterpret(res)
+            try:
+                ind, got = run(True)
+                _, single = run(False)
+            except DECLINE as e:
+                ctx.count(f"threads:independent:declined:{type(e).__name__}")
+                continue
+            ctx.count("threads:independent")
+            probe = nested_same_mangled(ind)
+            ok = isinstance(got, Tensor) and not got.inputs and abs(float(got.data) - want) < 1e-9
+            if probe or not ok:
+                ctx.fail("input", "C05.threads-independent", witness={"batch": bname, "inner": iname, "interp": interp_name,
+                         "P": P.tolist(), "Q": Qd.tolist(), "V": V.tolist()},
+                         expected=f"{want} (single-thread build: {single})", got=f"{got}; {probe or ''}",
+                         python=THREAD_PY + THREAD_IND_PY.format(b=bname, i=iname, interp=interp_name, P=P.tolist(),
+                                                                 Q=Qd.tolist(), V=V.tolist(), want=want))
+            ctx.case()
+    # (c) recipes: INNER binder over v with free w (thread A); OUTER binder over the same v around h(v) * INNER[w := v]
+    n = 2
+    g = Gen(rng, n)
+    inners = ["reduce", "contr", "integ", "fac:FSumFirst", "fac:FDotMid"]
+    outers = ["reduce", "contr", "integ", "lamget", "fac:FSumLast", "fac:FDotFirst", "markov"]
+    for c_in, c_out, interp_name in itertools.product(inners, outers, ("lazy", "reflect")):
+        interp = {"lazy": lazy, "reflect": reflect}[interp_name]
+        for v, w in itertools.permutations(POOL, 2):
+            if ctx.tier == "quick" and rng.random() > 0.35:
+                continue
+            inner = mk(g, c_in, v, w, g.leaf("real", [v, w]))
+            if inner is None or w not in free(inner):
+                continue
+            body = ("binary", "mul", g.leaf("real", [v]), ("subs", inner, w, ("bvar", v)))
+            r = mk(g, c_out, v, [x for x in POOL if x not in (v, w)][0], body)
+            if r is None:
+                continue
+            ins = sorted(free(r))
+            if len(ins) > 4:
+                continue
+            try:
+                orc = py_table(r, ins, n, None)
+            except Exception:
+                continue
+
+            def build_threaded():
+                cache = {}
+
+                def a():
+                    with interp:
+                        return build(inner, n, cache)
+                cache[("prebuilt", id(inner))] = in_thread(a)
+
+                def b():
+                    with interp:
+                        return build(r, n, cache)
+                return in_thread(b)
+            try:
+                term = build_threaded()
+                got = reinterpret(term)
+            except DECLINE + (RecursionError,) as e:
+                ctx.count(f"threads:recipe:declined:{type(e).__name__}")
+                continue
+            ctx.count("threads:recipe")
+            probe = nested_same_mangled(term)
+            tab = impl_table(got, ins, n) if not (set(got.inputs) - set(ins)) else f"foreign inputs {sorted(got.inputs)}"
+            if probe or (tab is not None and not tables_same(tab, orc)):
+                ctx.fail("input", "C05.threads-nested-binders",
+                         witness={"n": n, "recipe": describe(r), "inner": describe(inner), "interp": interp_name},
+                         expected=str(orc)[:300], got=f"{tab}; {probe or ''}"[:500],
+                         python=THREAD_PY + py_program(r, n, interp_name, None).replace(
+                             "FAILS", "# NOTE: build the `inner` sub-term with in_thread(...) first, then the rest with in_thread(...)\nFAILS")
+                         + "FAILS = True\n")
+            ctx.case(nontrivial_key=repr(describe(r)) + interp_name)
+
+
+THREAD_IND_PY = """import numpy as np
+from collections import OrderedDict
+import funsor, funsor.ops as ops
+from funsor.domains import Bint, Real
+from funsor.tensor import Tensor
+from funsor.terms import Variable, Independent
+from funsor.interpretations import lazy, reflect
+from funsor.interpreter import reinterpret
+interp = {interp}
+xi = Variable('xi', Real)
+p = Tensor(np.array({P}), OrderedDict([({b!r}, Bint[3])]))
+q = Tensor(np.array({Q}), OrderedDict([({i!r}, Bint[3])]))
+def make_inner():
+    with interp:
+        return (q * xi).reduce(ops.add, {i!r})
+inner = in_thread(make_inner)
+def make_outer():
+    with interp:
+        return Independent(p * xi + inner, 'x', {b!r}, 'xi')
+ind = in_thread(make_outer)
+with interp:
+    res = ind(x=Tensor(np.array({V})))
+res = reinterpret(res)
+print(res, 'expected', {want})
+FAILS = bool(res.inputs) or abs(float(res.data) - {want}) > 1e-9
+"""
+
+
 def simsubs_stream(ctx):
     """SIMULTANEOUS substitution into ground Tensors / eager results: the keys of one call are binders of that call.
     Every pattern {key a renamed (Variable / Slice) onto the name of another key b of the same call, b replaced by a
@@ -1369,8 +1573,8 @@ def simsubs_stream(ctx):
                                                                                    g.leaf("bint", [b])])))
                             body = bodies[rng.randrange(2)]
                             cases.append((n, ("msubs", body, tuple(pairs))))
-    if quick and len(cases) > 500:
-        cases = rng.sample(cases, 500)
+    if quick and len(cases) > 350:
+        cases = rng.sample(cases, 350)
     out = []
     for n, r in cases:
         ins = sorted(free(r))
@@ -1429,8 +1633,8 @@ def fusion_stream(ctx):
             fr = sorted(free(cur))
             if ok and fr:
                 cases.append((n, ("subs", cur, rng.choice(fr), ("bvar", rng.choice(POOL)))))
-    if quick and len(cases) > 450:
-        cases = rng.sample(cases, 450)
+    if quick and len(cases) > 300:
+        cases = rng.sample(cases, 300)
     out = []
     for n, r in cases:
         ins = sorted(free(r))
@@ -2040,6 +2244,81 @@ FAILS = float(apply_optimizer(t).data) != float(np.array({data}).sum() ** 2)
 """
 
 
+GEN_FILE = "FunsorVerif/Gen/C05Gensym.lean"
+
+
+def gensym_source_form(repo):
+    """AST of funsor/interpreter.py::gensym -> the facts the freshness argument rests on"""
+    import ast
+    src = (repo / "funsor" / "interpreter.py").read_text()
+    mod = ast.parse(src)
+    fn = next((x for x in mod.body if isinstance(x, ast.FunctionDef) and x.name == "gensym"), None)
+    facts = dict(found=fn is not None, counterIsModuleGlobal=False, incrementsByOne=False, usesPerContextState=True,
+                 nameFromCounter=False, counter="")
+    if fn is None:
+        return facts
+    globals_ = [n_ for st in fn.body if isinstance(st, ast.Global) for n_ in st.names]
+    int_globals = {t.id for st in mod.body if isinstance(st, ast.Assign) and isinstance(st.value, ast.Constant)
+                   and isinstance(st.value.value, int) for t in st.targets if isinstance(t, ast.Name)}
+    counter = next((g_ for g_ in globals_ if g_ in int_globals), "")
+    facts["counter"] = counter
+    facts["counterIsModuleGlobal"] = bool(counter)
+    facts["incrementsByOne"] = any(
+        isinstance(st, ast.AugAssign) and isinstance(st.target, ast.Name) and st.target.id == counter
+        and isinstance(st.op, ast.Add) and isinstance(st.value, ast.Constant) and st.value.value == 1
+        for st in fn.body)
+    # any state other than that module-global integer: attribute stores, getattr/setattr, threading/contextvars…
+    suspicious = False
+    for node in ast.walk(fn):
+        if isinstance(node, ast.Attribute) and isinstance(node.ctx, (ast.Store, ast.Del)):
+            suspicious = True
+        if isinstance(node, ast.Call) and isinstance(node.func, ast.Name) and node.func.id in ("getattr", "setattr"):
+            suspicious = True
+        if isinstance(node, ast.Name) and node.id in ("threading", "contextvars", "local", "ContextVar", "get_ident", "getpid"):
+            suspicious = True
+    facts["usesPerContextState"] = suspicious or not counter
+    facts["nameFromCounter"] = any(
+        isinstance(node, ast.Return) and isinstance(node.value, ast.BinOp) and isinstance(node.value.op, ast.Add)
+        and isinstance(node.value.right, ast.Call) and getattr(node.value.right.func, "id", "") == "str"
+        for node in ast.walk(fn))
+    return facts
+
+
+def extract(ctx):
+    """regenerate lean/FunsorVerif/Gen/C05Gensym.lean from /repo's funsor/interpreter.py (and cross-check live)"""
+    from ..common import REPO, LEAN
+    facts = gensym_source_form(REPO)
+    from funsor import interpreter
+    live_global = isinstance(getattr(interpreter, facts["counter"], None), int) if facts["counter"] else False
+    b = lambda x: "true" if x else "false"   # noqa: E731
+    text = f"""/-
+  GENERATED by fv/harness/c05.py::extract from funsor/interpreter.py (function `gensym`) on every run.
+  The source form of the fresh-name supply: a module-global integer counter, incremented by one on every call,
+  no per-thread / per-context state, the returned name is built from the counter value.
+-/
+namespace FV.Gen.C05
+
+structure GensymForm where
+  found : Bool
+  counterIsModuleGlobal : Bool
+  incrementsByOne : Bool
+  usesPerContextState : Bool
+  nameFromCounter : Bool
+  liveCounterIsInt : Bool
+  deriving Repr, DecidableEq
+
+/-- counter variable: {facts['counter'] or '(none found)'} -/
+def gensymForm : GensymForm :=
+  ⟨{b(facts['found'])}, {b(facts['counterIsModuleGlobal'])}, {b(facts['incrementsByOne'])}, {b(facts['usesPerContextState'])}, {b(facts['nameFromCounter'])}, {b(live_global)}⟩
+
+end FV.Gen.C05
+"""
+    path = LEAN / GEN_FILE
+    if not path.exists() or path.read_text() != text:
+        path.write_text(text)
+    ctx.extra["gensym_source_form"] = facts
+
+
 def correspond(ctx):
     quick = ctx.tier == "quick"
     ctx.rule = ("random nestings (generator depth <= %d; measured binder nesting is larger because Cat comes with a Subs of its name and forced dependencies add binders) of Reduce, Lambda+getitem, Cat(part_name)+Subs, Contraction, Subs, "
@@ -2058,9 +2337,10 @@ def correspond(ctx):
     enum_stream(ctx)
     simsubs_stream(ctx)
     fusion_stream(ctx)
-    clean_stream(ctx, 1000 if quick else 6000)
+    clean_stream(ctx, 700 if quick else 5000)
     extras_stream(ctx, 80 if quick else 600)
-    gauss_integrate_stream(ctx, 250 if quick else 2500)
+    thread_stream(ctx)
+    gauss_integrate_stream(ctx, 200 if quick else 2000)
     for name, fid, stream in (("shared-binder", KF, shared_binder_stream), ("approximate", KF2, approximate_stream)):
         try:
             stream(ctx)
@@ -2078,7 +2358,7 @@ def correspond(ctx):
 def search(ctx, broken):
     """Python-side oracle (pyeval + name clauses), 10x volume; works without the Lean driver."""
     rng = ctx.rng
-    n_cases = 9000 if ctx.tier == "quick" else 30000
+    n_cases = 3000 if ctx.tier == "quick" else 30000
     found = 0
     for _ in range(n_cases):
         n, r, xval = gen_case(rng, ctx.tier)
